@@ -113,7 +113,8 @@ OpenPool(lazy) ==
 \* (multiprotocol..., cisco route refresh, route refresh, 4-octet AS, extended next hop, add-path, enhanced route refresh)
 ConstructCaps(as) ==
    <<{<<>>, <<MP(1, 1)>>, <<MP(1, 1), MP(2, 1), MP(1, 128)>>}, {<<>>, <<<<128, <<>>>>>>}, {<<>>, <<<<2, <<>>>>>>}, {<<>>, <<As4Cap(as)>>},
-     {<<>>, <<<<5, <<0, 1, 0, 1, 0, 2>>>>>>, <<<<5, <<0, 1, 0, 1, 0, 2, 0, 1, 0, 128, 0, 2>>>>>>}, {<<>>, <<<<69, <<0, 1, 1, 3>>>>>>, <<<<69, <<0, 1, 1, 1>>>>>>},
+     {<<>>, <<<<5, <<0, 1, 0, 1, 0, 2>>>>>>, <<<<5, <<0, 1, 0, 1, 0, 2, 0, 1, 0, 128, 0, 2>>>>>>, <<<<5, <<0, 1, 0, 1, 0, 2, 0, 1, 0, 1, 0, 1>>>>>>,
+      <<<<5, <<0, 1, 0, 128, 0, 2, 0, 1, 0, 1, 0, 2, 0, 1, 0, 128, 0, 1>>>>>>}, {<<>>, <<<<69, <<0, 1, 1, 3>>>>>>, <<<<69, <<0, 1, 1, 1>>>>>>},
      {<<>>, <<<<70, <<>>>>>>}>>
 OpenRtFor(a) ==
    LET CC == ConstructCaps(a) IN
